@@ -272,6 +272,11 @@ impl Property for P {
             case(vec![Submit(5, 0), Pump, ErrMsg(98)]),
             // zero timeout: expires at the next turn
             case(vec![Submit(0, 0), Pump, Pump, Chunk(1001, 1, 1, 70, 0, 1), Close(0)]),
+            // a pump turn that reaps a timed-out request and then fails to write the next one
+            // (completions are listed in label order: regression of a model ordering error)
+            case(vec![Submit(5, 0), Submit(1, 0), Pump, Pump, Submit(5, 2), Submit(5, 0), Advance(1), Pump]),
+            case(vec![Chunk(1682, 1, 1, 71, 0, 1), Chunk(1001, 2, 0, 72, 0, 4), Pump, Submit(1, 0), Advance(0), Pump, Advance(1), Pump, Submit(3, 0), Pump,
+                      Submit(2, 0), Submit(0, 0), Submit(2, 2), Chunk(1001, 3, 0, 72, 1, 4), Submit(2, 0), Pump, Chunk(1001, 4, 1, 73, 0, 1), Pump, Submit(1, 0), Pump, Pump]),
             // sequence numbers at the u32 boundary (witness of the merge_chunks overflow)
             case(vec![Submit(5, 0), Pump, Chunk(1001, 4294967294, 0, 70, 0, 2), Chunk(1001, 4294967295, 1, 70, 1, 2), Close(0)]),
             case(vec![Submit(5, 0), Submit(5, 0), Pump, Pump, Chunk(1001, 4294967295, 1, 70, 0, 1), Chunk(1002, 1, 1, 71, 0, 1)]),
